@@ -43,7 +43,7 @@ const (
 	maxDepth     = 6
 	exhaustiveN  = 256 + 65536 // every input of length 1 and 2
 	allocPerByte = 128         // allowed allocation: allocPerByte*len(input) + allocSlack
-	allocSlack   = 1 << 20
+	allocSlack   = 4 << 20
 	// realistic upper bounds of the inputs that reach the codec in production
 	notifyLimit = 64 * 1024        // neotypes.MAX_NOTIFY_LENGTH (wasm notify)
 	neoLimit    = 1024 * 1024      // MAX_BYTEARRAY_SIZE (neovm -> wasm call parameter)
@@ -845,7 +845,7 @@ func giants() []giant {
 	// quick tier: the 10 MiB inputs cost ~10 s each (fresh memory is slow in this sandbox); keep the deepest nesting and the forged length
 	var gs []giant
 	for _, g := range all {
-		if g.Limit != "wasm10M" || strings.HasPrefix(g.Name, "nest1-closed/") || strings.HasPrefix(g.Name, "bytes-lenMax/") {
+		if (g.Limit != "wasm10M" && g.Limit != "beyond32M") || strings.HasPrefix(g.Name, "nest1-closed/wasm10M") || strings.HasPrefix(g.Name, "bytes-lenMax/") {
 			gs = append(gs, g)
 		}
 	}
@@ -951,13 +951,26 @@ func (c *child) violation(key, what string, fam string, idx uint64, entry string
 	c.res.Violations = append(c.res.Violations, childViolation{key, what, w})
 }
 
-// measured runs f and checks the allocation bound against the input length.
+// measured runs f and checks the allocation bound against the input length.  The runtime counts small
+// allocations when a span is handed back (in bursts of up to a few MiB at a GC cycle), so an excess is only
+// believed when it repeats: f (which must be idempotent) is re-run and the smallest delta is judged.
 func (c *child) measured(entry, fam string, idx uint64, input []byte, f func()) (panicked interface{}) {
+	bound := uint64(allocPerByte*len(input) + allocSlack)
 	a0 := c.allocs()
 	panicked = vf.Catch(f)
-	a1 := c.allocs()
-	if d := a1 - a0; d > uint64(allocPerByte*len(input)+allocSlack) {
-		c.violation("alloc:"+entry+":"+fam, fmt.Sprintf("%s allocated %d bytes for a %d-byte input (bound %d*len+%d)", entry, d, len(input), allocPerByte, allocSlack),
+	d := c.allocs() - a0
+	if d > bound && panicked == nil {
+		c.res.Counters["alloc_excess_remeasured"]++
+		for i := 0; i < 4 && d > bound; i++ {
+			a0 = c.allocs()
+			vf.Catch(f)
+			if d2 := c.allocs() - a0; d2 < d {
+				d = d2
+			}
+		}
+	}
+	if d > bound {
+		c.violation("alloc:"+entry+":"+fam, fmt.Sprintf("%s allocated %d bytes for a %d-byte input (bound %d*len+%d, smallest of 5 measurements)", entry, d, len(input), allocPerByte, allocSlack),
 			fam, idx, entry, input, map[string]interface{}{"allocated": d})
 	}
 	if len(input) >= 4096 {
@@ -1020,10 +1033,10 @@ func (c *child) one(idx uint64, fam string, data []byte, giantCase bool) {
 
 	// 1. DecodeValue on the raw bytes
 	c.stage(stDecode)
-	src := common.NewZeroCopySource(data)
+	var src *common.ZeroCopySource
 	var v interface{}
 	var err error
-	if p := c.measured("DecodeValue", fam, idx, data, func() { v, err = cc.DecodeValue(src) }); p != nil {
+	if p := c.measured("DecodeValue", fam, idx, data, func() { src = common.NewZeroCopySource(data); v, err = cc.DecodeValue(src) }); p != nil {
 		c.violation("panic:DecodeValue:"+fam, fmt.Sprint(p), fam, idx, "DecodeValue", data, nil)
 	} else if err == nil {
 		cnt["decode_accepted"]++
@@ -1261,12 +1274,20 @@ func partB(r *vf.Run, scratch string) {
 			r.Sample(s)
 		}
 	}
-	giantSem := make(chan struct{}, 4) // giants need up to ~1.5 GiB each: at most 4 at a time
+	// first-touch page faults are very slow in this sandbox (~0.25 ms per 4 KiB page): the two cases that need a
+	// 512 MiB stack run one after the other so that the second reuses the pages the first one gave back
+	hugeSem := make(chan struct{}, 1)
+	giantSem := make(chan struct{}, 6)
 	vf.Parallel(len(jobs), workers, func(ji int) {
 		j := jobs[ji]
 		if j.giant >= 0 {
-			giantSem <- struct{}{}
-			defer func() { <-giantSem }()
+			if l := gs[j.giant].Limit; (l == "wasm10M" || l == "beyond32M") && strings.HasPrefix(gs[j.giant].Name, "nest") {
+				hugeSem <- struct{}{}
+				defer func() { <-hugeSem }()
+			} else {
+				giantSem <- struct{}{}
+				defer func() { <-giantSem }()
+			}
 		}
 		lo := j.lo
 		for attempt := 0; attempt < 20; attempt++ {
@@ -1418,7 +1439,7 @@ func main() {
 		r.Require("giant_case_survived", int64(len(giants())))
 	}
 	r.Assume("inputs reaching the codec in production are bounded by MAX_NOTIFY_LENGTH (64 KiB, notify), MAX_BYTEARRAY_SIZE (1 MiB, neovm->wasm) and WASM_MEM_LIMITATION (10 MiB, wasm->neovm); deep-nesting inputs are generated up to these limits, not beyond")
-	r.Assume("'bounded allocation' is read as: heap bytes allocated by one decoding call <= 128*len(input)+1 MiB (runtime/metrics /gc/heap/allocs:bytes inside a single-threaded child)")
+	r.Assume("'bounded allocation' is read as: heap bytes allocated by one decoding call <= 128*len(input)+4 MiB, smallest of up to 5 repetitions (runtime/metrics /gc/heap/allocs:bytes inside a single-threaded child)")
 	r.Assume("integers given as int/int64/int32/uint32 are compared numerically with the *big.Int the decoder returns; the documented layout (tag, u32le length, payload) is what a wasm contract produces")
 	r.Finish()
 }
